@@ -85,7 +85,7 @@ int main(int argc, char** argv) {
             dsched::block_until([&] { return sh->producers_done == k; });
             if (q.try_mark_active()) sh->asleep = false;
             dsched::action("batch %s", batch_str(q.dequeue_all()).c_str());
-            break;
+            return;   // the script ends with the final drain
         }
       }
     });
